@@ -272,6 +272,26 @@ def catalogue(ctx):
                     ctx.violation(dict(call=dname, obj=name, symptom='not-equal'), repr(o)[:200], 'equal object', repr(o2)[:200], f'{dname} round trip of {name} differs')
             except Exception as e:
                 ctx.violation(dict(call=dname, obj=name, symptom='raised'), repr(o)[:200], 'round trip', repr(e)[:200], f'{dname} of {name} raised')
+    # a freshly constructed / copied / unpickled PassData must not alias its mutable fields with one another:
+    # passes permute placement in place (`_apply_perm(pi, data.placement)`)
+    for tag, mk in (('init', lambda: PassData(Circuit(4))), ('copy', lambda: PassData(Circuit(4)).copy()),
+                    ('pickle', lambda: pickle.loads(pickle.dumps(PassData(Circuit(4))))), ('target-reset', None)):
+        if mk is None:
+            x = PassData(Circuit(2))
+            from bqskit.qis.unitary.unitarymatrix import UnitaryMatrix as _UM
+            x.target = _UM.identity(16)      # the target setter re-initialises placement and mappings
+        else:
+            x = mk()
+        ctx.case(('cat', 'PassData-alias', tag))
+        names = ('placement', 'initial_mapping', 'final_mapping')
+        lists = {nm: getattr(x, '_' + nm) for nm in names}
+        shared = [(a, b) for i, a in enumerate(names) for b in names[i + 1:] if lists[a] is lists[b]]
+        before = {nm: list(getattr(x, nm)) for nm in names[1:]}
+        x._placement.reverse()
+        moved = [nm for nm in names[1:] if list(getattr(x, nm)) != before[nm]]
+        if shared or moved:
+            ctx.violation(dict(call='PassData.' + tag, symptom='fields-alias'), dict(how=tag), 'three distinct lists', dict(shared=shared, moved=moved),
+                          f'PassData ({tag}): placement / initial_mapping / final_mapping share one list object; an in-place permutation of the placement changes the mappings')
     # PassData.copy / become : equal in every field and independent
     q = pd.copy()
     if not pd_eq(pd, q):
